@@ -308,6 +308,10 @@ def c09(tier):
             steps += [op(c, "MULTI"), op(c, "SET", "done%d" % c, "1"), op(c, "EXEC")]
         steps += [op(1, "KEYS", "*")]
         cases.append(("c09-watchers-%d" % n, "mem", steps))
+    # an empty transaction still has to notice that a watched key changed (and a clean one replies *0)
+    for w in (["SET", "k", "v"], ["MSET", "k", "v"], ["APPEND", "k", "x"], ["INCR", "k"]):
+        cases.append(("c09-empty-queue-%s" % w[0], "mem", [op(1, "SET", "k", "1"), op(0, "WATCH", "k"), op(0, "MULTI"), op(2, *w), op(0, "EXEC"), op(0, "GET", "k")]))
+    cases.append(("c09-empty-queue-clean", "mem", [op(1, "SET", "k", "1"), op(0, "WATCH", "k"), op(0, "MULTI"), op(2, "GET", "k"), op(0, "EXEC")]))
     # a watcher that already ran its transaction (flags cleared) next to fresh ones
     steps = [op(1, "SET", "k", "0"), op(2, "WATCH", "k"), op(3, "WATCH", "k"), op(1, "SET", "k", "1"), op(2, "MULTI"), op(2, "GET", "k"), op(2, "EXEC"),
              op(2, "WATCH", "k"), op(4, "WATCH", "k"), op(1, "SET", "k", "2"),
